@@ -83,7 +83,7 @@ CLAIMS = {
         note='IEEE/libm evaluation of the closed form near a transition may return either neighbour within 1e-9 degree (the property allows it); float evaluation itself is not modelled.',
         design="8 C06", technique="Lean 4 proof (staircase laws over Q) + grid/ulp correspondence"),
     "C12": dict(
-        text='Theorems (64): infer is total on 112-bit frames (every isXX is a value); EMPTY; DF17 by type code (table pinned); for Comm-B replies infer returns exactly the labels of the satisfied rule sets in the fixed order, which is proved to be the sorted order, None iff no rule holds; wrongstatus_spec; per-register soundness for every coded status triple of 4,0 4,4 4,5 5,0 6,0 and for the reserved-bit rules of 1,0 1,7 2,0 3,0 4,0; exact characterisation is50_iff and completeness for BDS 4,0, 5,0 and 6,0 (core) built from sub-fields with arbitrary header/parity. Tie and oracle: completeness, soundness, thresholds +-1 LSB, DF20 altitude cross-check through the Float aero model, call-history sequences, is50or60, random payloads, mrar both.',
+        text='Theorems (80): infer is total on 112-bit frames (every isXX is a value); EMPTY; DF17 by type code (table pinned); for Comm-B replies infer returns exactly the labels of the satisfied rule sets in the fixed order, which is proved to be the sorted order, None iff no rule holds; wrongstatus_spec; per-register soundness for every coded status triple of 4,0 4,4 4,5 5,0 6,0 and for the reserved-bit rules of 1,0 1,7 2,0 3,0 4,0; exact integer characterisations is40_iff / is44_iff / is45_iff / is50_iff / is53_iff / is60Core_iff and completeness for BDS 4,0, 4,4, 4,5, 5,0 and 6,0 (core) built from sub-fields with arbitrary header/parity (infer_reports_44/45/50; 4,4 and 4,5 only with mrar). Tie and oracle: completeness and soundness for every register incl. the MRAR ones, thresholds +-1 LSB, every raw value of every status-guarded field, all single-bit neighbours of valid and of field-off payloads, DF20 altitude cross-check through the Float aero model, call-history sequences, is50or60 (both-valid payloads generated on purpose; the single label must be the closer one), random payloads, mrar both.',
         note="is60's altitude cross-check and is50or60 use floating point (aero); is50or60 is checked on the real code against an independent distance computation.",
         design="8 C12", technique="Lean 4 proof + boundary-directed correspondence"),
     "C16": dict(
